@@ -531,9 +531,10 @@ pub fn oracle(base: &Base, id: usize, v: &Val, origin: &str, out: &mut Out) {
         out.oracle_checks += 1;
         if *n == name {
             if *g != want[k].1 {
-                // D24: a break from -0.0 to +0.0
+                // D24: a break between the two zeros (-0.0 .. +0.0 or +0.0 .. -0.0): start.max(end)
+                // returns the start when the operands compare equal
                 let cls = match v {
-                    Val::Breaks(l) if l.iter().any(|(s, e)| *s == 0.0 && *e == 0.0 && s.is_sign_negative() && e.is_sign_positive()) => "D24",
+                    Val::Breaks(l) if l.iter().any(|(s, e)| *s == 0.0 && *e == 0.0 && s.is_sign_negative() != e.is_sign_negative()) => "D24",
                     _ => "",
                 };
                 out.fail(cls, &desc, &format!("edited field {} was set to {} and reads back as {}", n, want[k].1, g));
